@@ -781,7 +781,13 @@ func (e *Exec) interfere(st *State) {
 		if e.top == nil {
 			return
 		}
-		for k, nv := range st.heap {
+		var hks []string
+		for k := range st.heap {
+			hks = append(hks, k)
+		}
+		sort.Strings(hks)
+		for _, k := range hks {
+			nv := st.heap[k]
 			ov, ok := before[k]
 			if !ok || ov.S == nv.S || !strings.HasPrefix(string(nv.Sort), "(Array Int ") || ov.Sort != nv.Sort {
 				continue
